@@ -593,3 +593,10 @@ Print Assumptions C02_source_lines_rendered_as_written_partial.
 Example C02_ex_source_lines_witness : let Ls := [bs "  A la carte  "; [x09; xa0] ++ bs "5 EUR"; bs "Fin"] in
   forallb in_frag Ls = true /\ doc_spec_lines Ls = bs "<p>A la carte   " ++ [xa0] ++ bs "5 EUR Fin</p>" /\ doc_code_lines Ls = bs "<p>A la carte   5 EUR Fin</p>".
 Proof. exact srctext_lines_witness. Qed.
+
+(* ... and in ANY static context: [pre] / [post] are whatever markup stands in front of the first and behind the last line (an
+   element's start and end tag with constant attributes; nothing at all when the lines are the body of a template) *)
+Theorem C02_source_lines_any_context_partial : forall (pre post : bytes) (Ls : list bytes), (forall L, In L Ls -> in_frag L = true) ->
+  (ctx_code_lines pre post Ls = ctx_spec_lines pre post Ls <-> forall L, In L Ls -> no_byte_space_lead L = true).
+Proof. exact ctx_lines_exact. Qed.
+Print Assumptions C02_source_lines_any_context_partial.
